@@ -1,6 +1,6 @@
 (* C10  Literal and constant values match the compiler on each platform.
    Statements only; every proof is `exact <lemma>`. *)
-From CV Require Import Base.Bytes Lit.Defs Lit.Spec Lit.Platform Lit.Gen_Platforms Lit.PlatformProofs
+From CV Require Import Base.Bytes Lit.Defs Lit.Spec Lit.Platform Lit.TokenValue Lit.Gen_Platforms Lit.PlatformProofs
   Lit.Proofs Lit.IntTheorems Lit.CharTheorems Lit.ValueTheorems.
 Local Open Scope N_scope.
 
@@ -70,30 +70,24 @@ Theorem C10_cast_value z size signed : 1 <= size -> size <= 8 ->
 Proof. exact (truncate_spec z size signed). Qed.
 Print Assumptions C10_cast_value.
 
-(* a one-character narrow literal has the value of the platform's plain char when that is signed
-   (C and C++ files) ... *)
-Theorem C10_char_token_value_signed_platform p cpp sp v : c_char sp v -> p_sign p = 115 ->
+(* a one-character narrow literal has the value of the platform's plain char (C 6.4.4.4p10), in C
+   and C++ files, on every platform with 8-bit bytes (holds since /repo c27b70b; before, it was
+   refuted by '\xff' on the unsigned-char platforms) *)
+Theorem C10_char_token_value_platform p cpp sp v : c_char sp v -> p_char_bit p = 8 -> (p_sign p = 115 \/ p_sign p = 117) ->
   char_literal_to_ll (39 :: sp ++ [39]) = Some (sext_spec 8 v) /\
-  narrow_nbytes (39 :: sp ++ [39]) = Some 1 /\
+  token_char_count (39 :: sp ++ [39]) = Some 1 /\
   char_token_value p cpp 1 (sext_spec 8 v) = char_value_on p v.
-Proof. exact (char_token_value_signed_platform p cpp sp v). Qed.
-Print Assumptions C10_char_token_value_signed_platform.
+Proof. exact (char_token_value_platform p cpp sp v). Qed.
+Print Assumptions C10_char_token_value_platform.
 
-(* ... and for ASCII bytes on every platform *)
-Theorem C10_char_token_value_ascii p cpp v : v < 128 ->
-  char_token_value p cpp 1 (sext_spec 8 v) = char_value_on p v.
-Proof. exact (char_token_value_ascii p cpp v). Qed.
-Print Assumptions C10_char_token_value_ascii.
-
-(* ... but a byte >= 128 on a platform of the regenerated table whose plain char is unsigned is
-   reported with the host's sign: '\xff' is -1 where its value is 255 (finding, replayed on the
-   binary by the check) *)
-Theorem C10_char_token_unsigned_platform_refuted :
-  exists p s z, In p Gen_platforms /\ p_sign p = 117 /\
-                char_literal_to_ll s = Some z /\ narrow_nbytes s = Some 1 /\
-                (forall cpp, char_token_value p cpp 1 z <> char_value_on p 255).
-Proof. exact c_char_token_unsigned_platform_refuted. Qed.
-Print Assumptions C10_char_token_unsigned_platform_refuted.
+(* refuted for single octal escapes that do not start with 0: Token::isCChar counts '\377' as three
+   characters (replaceEscapeSequences), the platform adjustment is skipped (finding, replayed on the binary) *)
+Theorem C10_octal_escape_char_token_refuted :
+  exists p s z n, In p Gen_platforms /\ p_sign p = 117 /\
+                  char_literal_to_ll s = Some z /\ narrow_nbytes s = Some 1 /\ token_char_count s = Some n /\
+                  (forall cpp, char_token_value p cpp n z <> char_value_on p 255).
+Proof. exact octal_escape_char_token_refuted. Qed.
+Print Assumptions C10_octal_escape_char_token_refuted.
 
 (* every entry of the table regenerated from Platform::set and platforms/*.xml is well-formed
    (finite statement: the table is rewritten from the source on every run) *)
